@@ -226,7 +226,7 @@ inductive Res (α : Type) where
   | ok (a : α)
   | err (e : LexErr)
   | unsupported
-deriving Repr
+deriving Repr, DecidableEq
 
 def Res.map {α β} (f : α → β) : Res α → Res β
   | .ok a => .ok (f a) | .err e => .err e | .unsupported => .unsupported
@@ -246,7 +246,11 @@ def Res.push {α} (c : Char) : Res (Str × α) → Res (Str × α)
 step. Reaching the end of the text inside a string is `err unterminatedString` (the real lexer
 silently stops producing tokens; see `lexStep`). -/
 def scanStr : SState → List Char → Res (Str × List Char)
-  | _, [] => .err .unterminatedString
+  | .norm, [] => .err .unterminatedString
+  | .esc, [] => .err .unterminatedString
+  -- the text ends inside a `\u` escape: the escape is reported, then the string is unterminated
+  | .afterU, [] => .err .unknownEscapeSequence
+  | .hex _ _, [] => .err .unknownEscapeSequence
   | .norm, c :: r =>
     if c = '"' then .ok ([], r)
     else if c = '\\' then scanStr .esc r
@@ -1054,6 +1058,74 @@ def reprList : Mode → List Node → Bool
   | _, [] => true
   | m, n :: r => allowed m (kindFn n) && reprNode n && reprList m r
 end
+
+/-! ## The printer's concrete text (cst.rs `pretty_print_impl`, `ArgsPrinter`)
+
+What `cst::pretty_print` writes for a CST without comments, character by character: a call
+is `<indent>name(` … `)` + newline; in the one-line layout the arguments are separated by
+`", "`; in the one-argument-per-line layout every argument is on its own line, indented by
+two more spaces and followed by a comma, and the closing parenthesis is on its own line; a
+list argument is `[` + newline + its calls four columns deeper + `<indent+2>]`, or `[]`. -/
+
+def indent (d : Nat) : List Char := List.replicate d ' '
+
+mutual
+/-- `Value::fmt` (cst.rs) for the leaves; a list is printed by `pretty_print_impl` at depth
+`d + 4`, where `d` is the depth of the enclosing call. -/
+def renderVal (raw : Char → Bool) (d : Nat) : Val → List Char
+  | .int n => printInt n
+  | .dim s => printScaled s
+  | .inf s o => printNoUnits s ++ o.unit
+  | .str s => printStr raw s
+  | .list cs =>
+    '[' :: ((match cs with
+      | [] => []
+      | _ :: _ => '\n' :: (renderCalls raw (d + 4) cs ++ indent (d + 2))) ++ [']'])
+def renderArg (raw : Char → Bool) (d : Nat) : Arg → List Char
+  | .mk none v => renderVal raw d v
+  | .mk (some k) v => k ++ '=' :: renderVal raw d v
+/-- `ArgsPrinter::print_multiline` for every argument. -/
+def renderArgsMulti (raw : Char → Bool) (d : Nat) : List Arg → List Char
+  | [] => []
+  | a :: r => '\n' :: (indent d ++ ' ' :: ' ' :: (renderArg raw d a ++ ',' :: renderArgsMulti raw d r))
+/-- `ArgsPrinter::flush` of the buffered arguments. -/
+def renderArgsSingle (raw : Char → Bool) (d : Nat) : List Arg → List Char
+  | [] => []
+  | a :: r =>
+    renderArg raw d a ++ (match r with | [] => [] | _ :: _ => ',' :: ' ' :: renderArgsSingle raw d r)
+def renderCall (raw : Char → Bool) (d : Nat) : Call → List Char
+  | .mk name args =>
+    indent d ++ (name ++ '(' ::
+      ((if multiline args then renderArgsMulti raw d args ++ '\n' :: indent d
+        else renderArgsSingle raw d args) ++ [')', '\n']))
+def renderCalls (raw : Char → Bool) (d : Nat) : List Call → List Char
+  | [] => []
+  | c :: r => renderCall raw d c ++ renderCalls raw d r
+end
+
+/-- The text of a list: `Vec<_>::to_box_lang` + `cst::pretty_print` at depth 0. -/
+def renderNodes (raw : Char → Bool) (m : Mode) (l : List Node) : List Char :=
+  renderCalls raw 0 (lower m l)
+
+/-- The text of a horizontal list printed element by element (`Display for ds::Horizontal`). -/
+def renderEach (raw : Char → Bool) (l : List Node) : List Char :=
+  renderCalls raw 0 (lowerEach l)
+
+/-- Text level `lang::format` for a text without comments (the model lexer drops comments,
+the real formatter keeps them): lex, parse to a CST, pretty-print. -/
+def formatText (raw : Char → Bool) (src : List Char) : Res (List Char) :=
+  match lex src with
+  | .ok toks =>
+    match parseSource toks with
+    | some cs => .ok (renderCalls raw 0 cs)
+    | none => .err .parse
+  | .err e => .err e
+  | .unsupported => .unsupported
+
+/-- A function or argument name: a letter, then letters and underscores. -/
+def isWord : Str → Bool
+  | [] => false
+  | c :: t => isAlpha c && t.all (fun x => isAlpha x || decide (x = '_'))
 
 /-- Sizes for fuel. -/
 def tokFuel (toks : List BTok) : Nat := toks.length + 1
